@@ -89,6 +89,9 @@ func newDrv(sc vh.Scenario, dir string) *drv {
 	d.seeds["badseed"] = make([]byte, 16+r.Intn(15))
 	r.Read(d.seeds["badseed"])
 	lens := []int{6, 40, 40, 40, 7 + r.Intn(30)} // the length bounds of validate.go are over-represented
+	if r.Intn(2) == 0 {
+		lens = []int{40, 40, 40, 40, 40} // every passphrase at the upper bound
+	}
 	r.Shuffle(len(lens), func(i, j int) { lens[i], lens[j] = lens[j], lens[i] })
 	for i, p := range []string{"p1", "p2", "p3", "q1", "q2"} {
 		for {
@@ -229,7 +232,7 @@ func (d *drv) cand(w *wallet, name string, r interface{ Intn(int) int }) []byte 
 		return d.pass[name]
 	}
 	cur := w.priv
-	if len(cur) == 40 && r.Intn(2) == 0 {
+	if len(cur) == 40 && r.Intn(4) != 0 {
 		// the longest admissible passphrase with something appended (not a well-formed passphrase any more)
 		return append(append([]byte{}, cur...), passChars[r.Intn(len(passChars))])
 	}
